@@ -7,6 +7,7 @@ namespace OpcuaVerif.C33
 structure DState where
   as : AS
   added : List NodeRef      -- nodes added (Good) by this case, in order
+  canModify : Bool := true  -- `Session::can_modify_address_space` of the case's sessions
 
 /-- what the model knows of the standard address space (nodes the harness refers to) -/
 def fixtureAS : AS :=
@@ -93,11 +94,11 @@ def showCall : CallOut → String
 def newNodes (before after : AS) : List NodeRef := (after.nodes.drop before.nodes.length).map (·.ref)
 
 def doAddNodes (d : DState) (items : Option (List AddNodeReq)) : DState × String :=
-  let (o, a) := addNodes repaired d.as true items
-  ({ as := a, added := d.added ++ newNodes d.as a }, showCall o)
+  let (o, a) := addNodes repaired d.as d.canModify items
+  ({ d with as := a, added := d.added ++ newNodes d.as a }, showCall o)
 
 def doAddRefs (d : DState) (items : Option (List AddRefReq)) : DState × String :=
-  let (o, a) := addReferences repaired d.as true items
+  let (o, a) := addReferences repaired d.as d.canModify items
   ({ d with as := a }, showCall o)
 
 def parseFOp? (s : String) : Option FOp :=
@@ -121,39 +122,125 @@ def parseElem? (s : String) : Option Elem :=
 def parseWhere? (s : String) : Option (List Elem) :=
   if s = "-" then some [] else (s.splitOn ";").mapM parseElem?
 
+/-! ### arm tags (coverage of the model's branches by the generated ops) -/
+
+def tagged (r : String) (tags : List String) : String :=
+  if tags.isEmpty then r else r ++ " @@ " ++ ",".intercalate tags
+
+def nsKind (d : DState) (r : NodeRef) : String :=
+  if r.isNull then "null"
+  else if r.ns < d.as.namespaces then "registered"
+  else if r.ns = d.as.namespaces then "eq-count"
+  else "gt-count"
+
+def callTags (pfx : String) (n : Option Nat) (o : CallOut) : List String :=
+  (match n with
+   | none => [pfx ++ "-list-null"]
+   | some k =>
+     if k = 0 then [pfx ++ "-list-empty"]
+     else if k < maxPerCall then [pfx ++ "-len-lt-limit"]
+     else if k = maxPerCall then [pfx ++ "-len-eq-limit"]
+     else [pfx ++ "-len-gt-limit"]) ++
+  (match o with
+   | .fault s => [pfx ++ "-fault-" ++ s.name]
+   | .results l => (l.take 1).map (fun s => pfx ++ "-" ++ s.name)
+   | .panic _ => [pfx ++ "-panic"])
+
+def addNodeTags (d : DState) (r : AddNodeReq) : List String :=
+  [s!"an-cls-{r.cls}", "an-reqid-" ++ nsKind d r.reqId,
+   if r.reqServerIndex = 0 then "an-sidx-0" else "an-sidx-nonzero",
+   if r.parentServerIndex = 0 then "an-psidx-0" else if r.parentServerIndex = 4294967295 then "an-psidx-max" else "an-psidx-other",
+   if r.bnNull then "an-bn-null-or-empty" else if r.bnNs = 0 then "an-bn-ns0" else "an-bn-ns-other",
+   match r.refType with
+   | none => "an-rt-invalid"
+   | some rt => if hierarchical.contains rt then "an-rt-hierarchical" else "an-rt-other",
+   match r.attrs with
+   | .unusable => "an-attrs-unusable"
+   | .fits c => if c = r.cls then "an-attrs-fit" else "an-attrs-other-class",
+   if r.typeDef.isNull then "an-td-null" else if d.as.exists r.typeDef then "an-td-exists" else "an-td-missing",
+   if d.as.exists r.parent then "an-parent-exists" else "an-parent-missing"]
+
+def addRefTags (d : DState) (r : AddRefReq) : List String :=
+  [if r.isForward then "ar-forward" else "ar-inverse",
+   if r.src == r.tgt then "ar-self" else "ar-distinct",
+   if r.uriNull then "ar-uri-null" else "ar-uri-set",
+   if r.tgtServerIndex = 0 then "ar-sidx-0" else "ar-sidx-nonzero",
+   s!"ar-tclass-{r.tgtClass}",
+   match r.refType with
+   | none => "ar-rt-invalid"
+   | some _ => "ar-rt-valid",
+   if d.as.classDiffers r.tgt r.tgtClass then "ar-class-differs" else "ar-class-same-or-unknown"]
+
+def fopName : FOp → String
+  | .eq => "eq" | .isNull => "isnull" | .gt => "gt" | .lt => "lt" | .gte => "gte" | .lte => "lte"
+  | .not => "not" | .between => "between" | .inList => "inlist" | .and => "and" | .or => "or"
+  | .unsupported => "unsup"
+
+def evfTags (els : List Elem) : List String :=
+  (match whereClausePanics false els with
+   | none => ["evf-pinned-none"]
+   | some .operandIndex => ["evf-pinned-operand-index"]
+   | some .elementIndex => ["evf-pinned-element-index"]
+   | some .attributeOperand => ["evf-pinned-attribute-operand"]
+   | some .compareValues => ["evf-pinned-compare-values"]) ++
+  (if els.isEmpty then ["evf-empty"] else
+    match evalElem true els (els.length + 1) [0] 0 with
+    | .err => ["evf-res-err"]
+    | .bool => ["evf-res-bool"]
+    | .val _ => ["evf-res-val"]
+    | .panic _ => ["evf-res-panic"]) ++
+  (els.map (fun e => "evf-op-" ++ fopName e.op)).eraseDups ++
+  (els.map (fun e =>
+    if e.operands.length < minOperands e.op then "evf-operands-lt-min"
+    else if e.operands.length = minOperands e.op then "evf-operands-eq-min" else "evf-operands-gt-min")).eraseDups
+
 def dstep (d : DState) (toks : List String) : DState × String :=
   match toks with
-  | ["reset"] => ({ as := fixtureAS, added := [] }, "ok")
+  | ["reset"] => ({ as := fixtureAS, added := [] }, tagged "ok" ["reset-can-modify"])
+  | ["reset", "ro"] => ({ as := fixtureAS, added := [], canModify := false }, tagged "ok" ["reset-read-only"])
   | "addnode" :: rest =>
     match parseAddNode? d rest with
-    | some r => doAddNodes d (some [r])
+    | some r =>
+      let (d', o) := doAddNodes d (some [r])
+      (d', tagged o (addNodeTags d r ++ [s!"an-{(o.splitOn " ").getD 1 "?"}"]))
     | none => (d, "bad-op")
   | "addref" :: rest =>
     match parseAddRef? d rest with
-    | some r => doAddRefs d (some [r])
+    | some r =>
+      let (d', o) := doAddRefs d (some [r])
+      (d', tagged o (addRefTags d r ++ [s!"ar-{(o.splitOn " ").getD 1 "?"}"]))
     | none => (d, "bad-op")
-  | ["addnodes", "none"] => doAddNodes d none
-  | ["addnodes", "empty"] => doAddNodes d (some [])
+  | ["addnodes", "none"] => let (d', o) := doAddNodes d none; (d', tagged o ["ans-list-null"])
+  | ["addnodes", "empty"] => let (d', o) := doAddNodes d (some []); (d', tagged o ["ans-list-empty"])
   | ["addnodes", "many", n] =>
     match n.toNat?, parseAddNode? d ["-", "0", "0", "0:3", "s85", "0", "35", "-", "null"] with
-    | some n, some r => doAddNodes d (some (List.replicate n r))
+    | some n, some r =>
+      let (d', o) := doAddNodes d (some (List.replicate n r))
+      (d', tagged o [if n < maxPerCall then "ans-len-lt-limit" else if n = maxPerCall then "ans-len-eq-limit" else "ans-len-gt-limit"])
     | _, _ => (d, "bad-op")
-  | ["addrefs", "none"] => doAddRefs d none
-  | ["addrefs", "empty"] => doAddRefs d (some [])
+  | ["addrefs", "none"] => let (d', o) := doAddRefs d none; (d', tagged o ["ars-list-null"])
+  | ["addrefs", "empty"] => let (d', o) := doAddRefs d (some []); (d', tagged o ["ars-list-empty"])
   | ["addrefs", "many", n] =>
     match n.toNat?, parseAddRef? d ["m0", "s85", "0", "1", "1", "35", "1"] with
-    | some n, some r => doAddRefs d (some (List.replicate n r))
+    | some n, some r =>
+      let (d', o) := doAddRefs d (some (List.replicate n r))
+      (d', tagged o [if n < maxPerCall then "ars-len-lt-limit" else if n = maxPerCall then "ars-len-eq-limit" else "ars-len-gt-limit"])
     | _, _ => (d, "bad-op")
-  | ["rq", _, _] => (d, "ok")      -- generated-request testing: the model only says "is answered"
-  | ["tick"] => (d, "ok")
-  | ["browse", _, _, _] => (d, "ok")   -- the view service is not modelled here (C30/C31): "is answered"
+  | ["rq", kind, _] => (d, tagged "ok" ["rq-" ++ kind])      -- generated-request testing: the model only says "is answered"
+  | ["sub"] => (d, "ok")
+  | ["item", _] => (d, "ok")
+  | ["setmode", _] => (d, "ok")
+  | ["resend"] => (d, "ok")
+  | ["getitems"] => (d, "ok")
+  | ["tick"] => (d, tagged "ok" ["tick-now"])
+  | ["tick", _] => (d, tagged "ok" ["tick-ahead"])
+  | ["browse", _, _, _] => (d, tagged "ok" ["browse"])   -- the view service is not modelled here (C30/C31): "is answered"
   | ["evf", spec] =>
     match parseWhere? spec with
     | some els =>
-      -- the raised event is itself a node this case added (the harness deletes it afterwards)
       match whereClausePanics true els with
-      | some _ => (d, "panic")
-      | none => (d, "ok")
+      | some _ => (d, tagged "panic" (evfTags els))
+      | none => (d, tagged "ok" (evfTags els))
     | none => (d, "bad-op")
   | _ => (d, "bad-op")
 
